@@ -125,8 +125,8 @@ func c18Sequential(sc c18Scenario) []string {
 }
 
 type c18Params struct {
-	Bound  int  `json:"bound"`
-	Bound3 int  `json:"bound_three_threads"`
+	Bound   int `json:"bound"`
+	Bound3  int `json:"bound_three_threads"`
 	MaxExec int `json:"max_exec_per_scenario"`
 }
 
@@ -206,15 +206,17 @@ func workC18(w *run.W) {
 				}
 			}
 		}
-		var rec func(x c18Exec, prefix []int, cost int)
-		rec = func(x c18Exec, prefix []int, cost int) {
+		// iterative bounding (CHESS): everything with 1 deviation first, then 2, ...; within pass b only executions
+		// with exactly b deviations are new and checked
+		var rec func(x c18Exec, prefix []int, cost, pass int)
+		rec = func(x c18Exec, prefix []int, cost, pass int) {
 			for i := len(prefix); i < len(x.points); i++ {
 				pt := x.points[i]
 				c := cost
 				if pt.Kind == "pool" || pt.Preempts {
 					c++
 				}
-				if c > bound {
+				if c > pass {
 					continue
 				}
 				for alt := 1; alt < pt.Arity; alt++ {
@@ -236,8 +238,13 @@ func workC18(w *run.W) {
 					}
 					y := c18Run(sc, np, shared, false, false)
 					w.Touch()
-					check(y, np)
-					rec(y, np, c)
+					if c == pass || (c < pass && pt.Arity > 0 && !pt.Preempts && pt.Kind != "pool" && false) {
+						check(y, np)
+					} else {
+						execs++ // re-execution of a schedule already checked in an earlier pass
+						w.Count("re_executions", 1)
+					}
+					rec(y, np, c, pass)
 				}
 			}
 		}
@@ -246,7 +253,13 @@ func workC18(w *run.W) {
 				check(root, nil)
 				w.Count(sc.Name+"/points_first_execution", int64(len(root.points)))
 			}
-			rec(root, nil, 0)
+			for pass := 0; pass <= bound && !capped; pass++ {
+				topIdx = 0
+				rec(root, nil, 0, pass)
+				if !capped {
+					w.Count(fmt.Sprintf("%s/completed_bound_%d", sc.Name, pass), 1)
+				}
+			}
 			w.Count("scenarios_x_shards", 1)
 			w.Count(sc.Name+"/executions", int64(execs))
 			w.Count("distinct_outcomes", int64(len(outcomes)))
@@ -294,9 +307,9 @@ func workC18First(w *run.W) {
 		}
 	}
 	type pt struct {
-		A int  `json:"a"`
-		T int  `json:"t"`
-		P bool `json:"p"`
+		A int    `json:"a"`
+		T int    `json:"t"`
+		P bool   `json:"p"`
 		K string `json:"k"`
 	}
 	var pts []pt
